@@ -16,6 +16,19 @@
              classes, incl. the ones not modelled (FisherLDA, PCA small-sample branch, encoder/decoder, batch
              partitions, weight scaling).  ZCA on rank-deficient data: output covariance = target variance times the
              exact orthogonal projector onto the range of the covariance (C15_zca_rank_deficient_projector_partial).
+  extension: PCA::setData / encoder / decoder as coded (C15PcaModel.v) with the eigen-decomposition as ORACLE: the harness records
+             the values the real decomposition returned (standard branch: the public eigenvalues()/eigenvectors(); small-sample branch:
+             the Gram-type matrix is formed with the statements of setData and handed to the same decomposition), the extracted model
+             is run with these values as the oracle's answer and compared with the C++ (eigenvalues exactly, directions / encoder /
+             decoder exactly in the standard branch and to 1e-10 where a square root occurs), and the oracle's contract (orthogonal,
+             eigen-equation, order) is evaluated on the recorded values against the exact matrix (independent monitor).
+             LinearRegression::train / LDA::train as coded INCLUDING the solver (C15SolveModel.v = statistics as coded + the proved C02
+             model of solve(.., symm_semi_pos_def)): statistics compared exactly; the whole run exactly over Qc where every square root
+             met is rational (streams LX, DWX: X = H T^T, Hadamard design times a dominant triangular matrix, full rank and singular),
+             otherwise the same extracted functions over doubles (compared for regular systems with condition <= 1e6).
+             NormalizeComponentsZCA::train as coded (C15ZcaModel.v) with the same oracle device (recorded decomposition of the covariance).
+             LDA on a singular pooled covariance: besides the least-squares condition the returned rows are compared with the exact
+             Moore-Penrose solution C^+ m (keys ...:solve:singular:pseudo-inverse).
   open findings (stable keys, listed in known_findings.json by the lead): FisherLDA::train:criterion,
              LDA::train(weighted):solve:singular.  corpus/C15 holds the failing inputs of these and, as regression
              inputs, of the defects repaired in /repo (unit interval, zero covariance, ZCA rank, PCA d > n, Fisher mean).
@@ -104,7 +117,9 @@ def model_line(c, o):
         par = [fl([0.0] * (c["o"] * d_)), fl([0.0] * c["o"])] if k == "L" else [fl([0.0] * (K * d_))]
     elif o is None or not allfinite(o): return None
     elif k == "L": par = [fl(o["mat"]), fl(o["off"])]
-    elif k in ("W", "Z"): par = [str(o["rows"]), fl(o["mat"]), fl(o["off"])]
+    elif k in ("W", "Z"):
+        par = [str(o["rows"]), fl(o["mat"]), fl(o["off"])]
+        if k == "Z" and "on" in o and all(finite(x) for x in o["oD"] + o["oU"]): par += [str(o["on"]), fl(o["oD"]), fl(o["oU"]), binq(EPSM), binq(fr(c["args"][0]))]
     elif k == "P":
         par = [str(o["vcols"]), fl(o["ev"]), fl(o["evec"])]
         # the small-sample runs of the model are expensive (exact rationals; the bit length is squared by every Gram-Schmidt step, so every
@@ -182,6 +197,19 @@ def fproj(C):
     G = [[sum(a * b for a, b in zip(u, v)) for v in cols] for u in cols]                 # B^T B
     X = fsolve(G, [[u[i] for u in cols] for i in range(d)])                                # (B^T B)^-1 B^T, column i
     return [[sum(cols[r][a] * X[b][r] for r in range(len(cols))) for b in range(d)] for a in range(d)]
+def fpinv_apply(C, m):
+    """exact C^+ m for a symmetric positive semi-definite C (the Moore-Penrose solution symm_pos_semi_definite_solver documents),
+    and the infinity-norm condition number of C restricted to its range: z = B (B^T C B)^-1 B^T m, B a basis of the range"""
+    d = len(C); cols = []
+    for j in range(d):
+        cand = cols + [[C[i][j] for i in range(d)]]
+        if frank(cand) == len(cand): cols = cand
+    if not cols: return [Fr(0)] * d, 1.0
+    r = len(cols)
+    G = [[sum(cols[a][i] * C[i][j] * cols[b][j] for i in range(d) for j in range(d)) for b in range(r)] for a in range(r)]
+    y = fsolve(G, [[sum(cols[a][i] * m[i] for i in range(d)) for a in range(r)]])
+    if y is None: return None, None
+    return [sum(cols[a][i] * y[0][a] for a in range(r)) for i in range(d)], cond_inf(G)
 def mat(v, r, c): return [v[i * c:(i + 1) * c] for i in range(r)]
 def mm(A, B): return [[sum(a * b for a, b in zip(r, col)) for col in zip(*B)] for r in A]
 def tr(A): return [list(r) for r in zip(*A)]
@@ -265,6 +293,15 @@ def mon_line(c, o):
         name = "NormalizeComponentsWhitening" if k == "W" else "NormalizeComponentsZCA"
         if not allfinite(o):
             B("%s::train:%s:non-finite" % (name, "zero-covariance" if rk == 0 else "rank-deficient" if rk < d else "full-rank"), "non-finite model (covariance rank %d of %d, %s)" % (rk, d, shape)); return bad
+        if k == "Z" and "on" in o and all(finite(x) for x in o["oD"] + o["oU"]):
+            on = o["on"]; oU = mat(o["oU"], on, on); oD = o["oD"]; Cf_ = [[float(x) for x in row] for row in C]; scD = max([abs(x) for x in oD] + [1e-300])
+            for i in range(on):
+                for l in range(on):
+                    g1 = sum(oU[a][i] * oU[a][l] for a in range(on)); g2 = sum(oU[i][a] * oU[l][a] for a in range(on))
+                    if abs(g1 - (i == l)) > 1e-9 or abs(g2 - (i == l)) > 1e-9: B(name + "::oracle:contract:orthogonal", "symm_eigenvalue_decomposition: Q is not orthogonal (%d,%d) (%s)" % (i, l, shape))
+                Su = mv(Cf_, [oU[a][i] for a in range(on)])
+                if any(abs(Su[a] - oD[i] * oU[a][i]) > 1e-9 * scD for a in range(on)): B(name + "::oracle:contract:eigen-equation", "symm_eigenvalue_decomposition: C q_%d != D_%d q_%d (%s)" % (i, i, i, shape))
+            if any(oD[i] < oD[i + 1] for i in range(on - 1)): B(name + "::oracle:contract:order", "symm_eigenvalue_decomposition: eigenvalues not sorted: %s" % oD)
         r = o["rows"]
         if k == "W" and r != rk: B(name + "::train:rank", "model has %d rows, covariance rank is %d (%s)" % (r, rk, shape))
         # ZCA (d rows): identity on the range of the covariance, 0 on its null space, i.e. tv * orthogonal projector
@@ -400,6 +437,15 @@ def mon_line(c, o):
                 ne = [sum(res[l] * Cf[l][j] for l in range(d)) for j in range(d)]
                 s2 = max(max(sc), 1e-300) * max(max(abs(x) for r in Cf for x in r), 1e-300)
                 if any(abs(x) > 1e-7 * s2 for x in ne): B(name + ":solve:singular", "class %d: least-squares condition (z C - m) C = %s (%s)" % (cc, ne, shape))
+                else:
+                    # the solver documents the Moore-Penrose solution z = C^+ m (for C = 0: z = 0); the least-squares condition alone is
+                    # blind when C is exactly 0 or z has a huge component in the null space (rounding noise taken for a pivot)
+                    zp, kap = fpinv_apply(Cp, mc[cc])
+                    if zp is not None and kap is not None and kap <= 1e6:
+                        scz = max([abs(float(x)) for x in zp] + [1.0])
+                        if any(abs(z[j] - float(zp[j])) > 1e-7 * kap * scz for j in range(d)):
+                            B(name + ":solve:singular:pseudo-inverse", "class %d: z = %s, the Moore-Penrose solution C^+ m of the singular system is %s (rank %d of %d, %s, K=%d, lambda=%s)" % (
+                                cc, z, [float(x) for x in zp], frank(Cp), d, shape, K, lam))
             want = -0.5 * sum(float(a) * b for a, b in zip(mc[cc], z)) + math.log(float(Wc[cc] / W))
             if not close(o["bias"][cc], want, 1e-9, sum(abs(float(a) * b) for a, b in zip(mc[cc], z)) + 1):
                 B(name + ":bias", "class %d: bias %r, expected -m.z/2 + log prior = %r" % (cc, o["bias"][cc], want))
@@ -551,6 +597,15 @@ def compare(c, o, mo):
             if not close(o["off"][a], md["coff"][a], 1e-9, abs(float(md["coff"][a])) + 1): D("offset[%d] model -W mean = %r impl %r" % (a, float(md["coff"][a]), o["off"][a]))
             for b in range(r):
                 if abs(float(md["ocov"][a * r + b]) - want[a][b]) > 1e-7 * max(1.0, float(tv)): D("model: covariance of outputs (%d,%d) = %r" % (a, b, float(md["ocov"][a * r + b])))
+        if "zW" in md:
+            # C15ZcaModel.zca_train with the recorded answer of the eigen-decomposition as oracle
+            if md["zW"] is None: D("as-coded ZCA model raises an exception, the implementation returned a model"); return dis
+            sc = max([abs(x) for x in o["mat"]] + [1e-300])
+            for t, (x, y) in enumerate(zip(o["mat"], md["zW"])):
+                if abs(x - float(y)) > 1e-9 * sc: D("as-coded ZCA model: matrix entry %d model %r impl %r" % (t, float(y), x)); break
+            so = max([abs(x) for x in o["off"]] + [sc * max([abs(float(v)) for rr in c["rows"] for v in rr] + [1.0])])
+            for t, (x, y) in enumerate(zip(o["off"], md["zoff"])):
+                if abs(x - float(y)) > 1e-9 * so: D("as-coded ZCA model: offset %d model %r impl %r" % (t, float(y), x)); break
     elif k == "P":
         for j in range(d):
             if not exact(o["mean"][j], md["mean"][j]): D("mean[%d]" % j)
@@ -889,7 +944,9 @@ def shrink(rn, G, key):
 def main():
     ck = Check(PID)
     ck.trusted = DEFAULT_TRUSTED + [
-        "modelled not verified: remora's symmetric eigen-decomposition, symm_pos_semi_definite_solver / solve(symm_semi_pos_def) and sqrt/log (their results enter the theorems as hypotheses - orthonormal eigenpairs, z C = m, s*s = variance - and the checks evaluate exactly these hypotheses and the conclusions on the returned parameters, to 1e-9)",
+        "modelled not verified: remora's symmetric eigen-decomposition (an ORACLE in C15PcaModel.v: its contract - orthogonal Q, eigen-equation, order - is the hypothesis of the PCA theorems and is evaluated on every run on the recorded values, to 1e-9) and sqrt/log (exact on the values met in the theorems)",
+        "the semi-definite solver is the C02 model (pstrf / potrf / substitutions, proved in C02 and tied to remora by tools/c02.py); the C15 theorems about the RETURNED LinearRegression / LDA parameters assume semi_exact (exact pivoted factorisation: exact roots, zero Schur complement at the stop), which floating point fulfils only up to rounding (finding LDA::train(weighted):solve:singular is a run where it fails)",
+        "the harness re-forms X0 X0^T / n with the statements of PCA::setData to record the eigen-decomposition's answer in the small-sample branch (the decomposition object is a local variable of setData)",
         "Python Fraction arithmetic of the independent monitor"]
     ck.assumptions = ["datasets are non-empty with at least two points for the normalisers and PCA, more points than dimensions for whitening/ZCA, more points than classes and no empty class for LDA (the documented / checked preconditions; violations must raise shark::Exception)",
                       "theorems about whitening, PCA and LDA are conditional on the contract of the eigen-decomposition / semi-definite solver (C02 checks the solver); floating-point rounding is outside the theorems: exact comparison on exactly representable data, 1e-9 relative elsewhere",
@@ -984,6 +1041,10 @@ def main():
               (nmon == 0 and ndis == 0) or (known_only and ndis == 0),
               ("%d groups hit known findings only (%s)" % (nmon, ", ".join(k["id"] for k in ck.known_hits)) if known_only and not ndis else "") if not (unknown_groups or ndis)
               else "%d groups with monitor findings (%s), %d groups with model/implementation differences" % (len(unknown_groups), ", ".join(sorted(reported)), ndis))
+    nx = sum(1 for cs, _, _, _ in res for c in cs if c.get("_mx") == 1); nf = sum(1 for cs, _, _, _ in res for c in cs if c.get("_mx") == 0)
+    ck.notes["as_coded_solver_model_runs"] = {"exact_over_Qc": nx, "double_arithmetic": nf}
+    ck.notes["pca_model_runs_small_sample"] = sum(1 for cs, os_, _, _ in res for c, o in zip(cs, os_) if c["kind"] == "P" and c["d"] > c["n"] >= 2 and o is not None)
+    ck.notes["pca_start_vector_ties_skipped"] = sum(1 for cs, _, _, _ in res for c in cs if c.get("_pca_tied"))
     lines = [l for G in groups for l, _ in G]
     kinds = {}
     for l in lines: kinds[l.split()[0]] = kinds.get(l.split()[0], 0) + 1
@@ -991,7 +1052,9 @@ def main():
     ck.cov["distinct_nontrivial"] = len(set(l for l in lines if parse_case(l)["n"] >= 3))
     ck.cov["rule"] = ("groups of trainer calls on generated datasets (n in 1..16 (32 thorough), d in 1..4 (6), integer / half-integer entries; styles: generic, constant feature, "
                       "duplicated feature, low rank, duplicated points, perfect-square variances, d > n) under 2-3 batch partitions each; weighted LDA additionally with all weights times 4 and times 3; "
-                      "FisherLDA additionally on a translated copy; non-trivial = at least 3 points; distinct = distinct case lines")
+                      "FisherLDA additionally on a translated copy; extension streams: PCA shapes n = d-1, d, d+1 with rank-deficient / constant / duplicated data, "
+                      "LinearRegression and weighted LDA on exactly representable designs X = H T^T (lambda = 0, full rank and singular, constant feature = multiple of the bias column), "
+                      "LDA with an empty class (exception) and singleton classes; non-trivial = at least 3 points; distinct = distinct case lines")
     ck.cov["samples"] = [groups[0][0][0], groups[len(groups) // 2][0][0]] if groups else []
     ck.notes["lines_per_trainer"] = kinds
     ck.notes["groups"] = len(groups); ck.notes["groups_with_monitor_findings"] = nmon; ck.notes["groups_model_differs"] = ndis
